@@ -175,7 +175,7 @@ class SendProxy(object):
 
 
 class Traced(object):
-    __slots__ = ("trace", "stamps", "outcome", "exc", "ready_left", "horizon_hit", "interrupted", "nrec", "parents", "held")
+    __slots__ = ("trace", "stamps", "outcome", "exc", "ready_left", "horizon_hit", "interrupted", "nrec", "parents", "held", "periods")
 
     def __init__(self):
         self.trace = []          # ("tick", k, stamp) markers, ("interrupt", k) and send dicts, in order
@@ -188,6 +188,7 @@ class Traced(object):
         self.nrec = 0
         self.parents = {}        # (framer, frame) -> name of the frame it is nested in (static program structure)
         self.held = {}           # (framer, frame) -> names of the auxiliary framers that frame holds
+        self.periods = {}        # scheduled tasker name -> period at the start of the run
 
 
 def run_traced(house, events, tick=0.125, horizon=40, stamp=0.0, interrupt_at=None, interrupt_exc=None, limit=20.0,
@@ -222,6 +223,7 @@ def run_traced(house, events, tick=0.125, horizon=40, stamp=0.0, interrupt_at=No
         res.trace.append(("tick", k, store.stamp))
 
     for t in house.taskables:
+        res.periods[t.name] = t.period
         t.runner = SendProxy(t, res.trace, events, curtick, before_send)
     store.changeStamp = change
     sk = skedding.Skedder(name="verif", period=tick, stamp=stamp, real=False, houses=[house])
